@@ -245,6 +245,11 @@ func genText(c *RunCtx, prop string) []*Batch {
 		if t.Kind != "op" && t.Kind != "if" {
 			t = gop("c_id", t)
 		}
+		if prop == "C13" && k%6 == 1 {
+			// an `if` at the root (and else-if chains) over integer variables: the branches are two-leaf operators
+			// (fast operators when that optimisation is on), literals, or further ifs
+			t = ifChain(r, 1+r.Intn(3))
+		}
 		tcP := mkTextConf(r, false)
 		src := t.Src()
 		switch prop {
@@ -570,4 +575,26 @@ func init() {
 			Behav:       []int{}, Fidelity: []int{31, 32, 33, 34, 35}, CodeText: textCodeText,
 			Gen:         func(c *RunCtx) []*Batch { return genText(c, prop) }})
 	}
+}
+
+func ifChain(r *Rand, d int) *GT {
+	iv := func() *GT {
+		if r.Intn(3) == 0 {
+			return gconst(int64(r.Intn(9)) - 2)
+		}
+		return gvar(pick(r, []string{"i0", "i1"}))
+	}
+	arith := func() *GT { return gop(pick(r, []string{"+", "-", "*"}), iv(), iv()) }
+	branch := func() *GT {
+		switch {
+		case d > 0 && r.Intn(2) == 0:
+			return ifChain(r, d-1)
+		case r.Intn(4) == 0:
+			return iv()
+		default:
+			return arith()
+		}
+	}
+	cond := gop(pick(r, []string{">", "<", "=", "!=", ">=", "<="}), iv(), iv())
+	return gif(cond, branch(), branch())
 }
